@@ -210,10 +210,17 @@ class WheelStream(Stream):
         own = "Name: %s\nVersion: 1.0\nRequires-Dist: own-dep\n" % name
         members = [["%s/__init__.py" % name.replace(".", "/"), "x = 1\n"]]
         layout = rng.choice(["own", "own", "own+vendored", "own+vendored-prefix", "none", "nested-own", "corrupt", "own-last", "own+same-name-vendored",
-                             "unreadable-empty", "unreadable-utf16", "unreadable-no-name"])
+                             "unreadable-empty", "unreadable-utf16", "unreadable-no-name", "damaged-member"])
         dist = "%s-1.0.dist-info/METADATA" % name
         if layout in ("own", "own+vendored", "own+vendored-prefix", "own-last", "own+same-name-vendored"):
             members.append([dist, own])
+        if layout == "damaged-member":
+            # the archive's directory is intact, the bytes of the METADATA member are not (a bad sector, a cut-and-resumed
+            # download): its check sum no longer matches; the description makes the member short or long
+            size = rng.choice([0, 2000, 40000, 120000])
+            where = rng.choice(["requires", "description"]) if size else "requires"
+            members.append([dist, own + "\n" + ("lorem ipsum dolor sit amet\n" * (size // 27))])
+            damaged = {"where": where}
         if layout == "unreadable-empty":
             members.append([dist, ""])
         if layout == "unreadable-utf16":
@@ -231,6 +238,8 @@ class WheelStream(Stream):
         if layout != "own-last":
             rng.shuffle(members)
         case = {"name": name, "layout": layout, "members": members}
+        if layout == "damaged-member":
+            case["damaged"] = damaged
         if rng.random() < 0.35:
             # the file name spells the project differently from its dist-info directory (case, '.' escaped as '_'); the
             # wheel's own dist-info is the one at the top level of the archive, wherever in the zip it was written
@@ -254,6 +263,15 @@ class WheelStream(Stream):
                     if isinstance(content, dict):
                         content = content["bytes-utf16"].encode("utf-16")
                     z.writestr(n, content)
+            if case["layout"] == "damaged-member":
+                with open(path, "rb") as f:
+                    data = bytearray(f.read())
+                marker = b"Requires-Dist: own-dep" if case["damaged"]["where"] == "requires" else b"lorem ipsum dolor sit amet\nlorem"
+                at = data.rfind(marker) if case["damaged"]["where"] == "description" else data.find(marker)
+                if at >= 0:
+                    data[at:at + 16] = b"\n" * 16      # still text, still parseable line by line
+                with open(path, "wb") as f:
+                    f.write(bytes(data))
         try:
             d = extract_metadata(path)
         except MetadataError:
@@ -269,7 +287,7 @@ class WheelStream(Stream):
 
     def oracle(self, case, r):
         lay = case["layout"]
-        if lay in ("none", "corrupt", "unreadable-empty", "unreadable-utf16", "unreadable-no-name"):
+        if lay in ("none", "corrupt", "unreadable-empty", "unreadable-utf16", "unreadable-no-name", "damaged-member"):
             if "error" not in r:
                 return [("C11/no-metadata-but-distribution", {"layout": lay, "got": r})]
             if r["error"] != "MetadataError":
